@@ -14,7 +14,7 @@ import itertools
 import random
 
 from harness import core, graphs
-from harness.props import c05
+from harness.props import c05, c11_sql
 
 PROP = "C11"
 
@@ -193,6 +193,7 @@ def compare(ctx, cases, drv):
     res = core.pmap(run_impl_safe, cases, chunksize=2)
     mres = drv.pbatch(list(reqs))
     problems = []
+    sql_items = []  # cases on which the regenerated SQL (T-sql) is evaluated by Rel.eval and compared with the engine
     for c, order, r, m in zip(cases, orders, res, mres):
         n = len(c["ids"])
         want = oracle(c)
@@ -216,6 +217,7 @@ def compare(ctx, cases, drv):
         if v is not None:
             problems.append((c, v, True))
             continue
+        sql_items.append((c, order, r))
         if "error" in m:
             # the translated part of the model could not be regenerated from the current source (already recorded as a broken
             # obligation): no model answer; the independent oracle above still decides the property on the real output
@@ -248,6 +250,7 @@ def compare(ctx, cases, drv):
             problems.append((c, f"per-threshold iteration traces differ from Lean model: impl {itr[:6]} model {mtr[:6]}", False))
             continue
         ctx.traces_validated += 1
+    problems += [(c, w, conc) for c, w, conc, _ in c11_sql.validate(ctx, sql_items, drv)]
     return problems
 
 
@@ -270,10 +273,11 @@ def run(ctx: core.Ctx):
     from harness.translate import tarith
 
     errs = tarith.write({"threshold_args_to_match_prob_list", "bayes_factor_to_prob", "match_weight_to_bayes_factor"})  # Generated/Arith.lean: the model's threshold list is the translated threshold_args_to_match_prob_list
+    sql_errs = c11_sql.prepare()  # Generated/CCSql.lean, MultiSql.lean: the SQL the code emits now, as Rel terms (T-sql)
     ctx.lean = core.lean_check(PROP, ctx.thorough)
-    if errs:
+    if errs or sql_errs:
         ctx.lean.ok = False
-        ctx.lean.problems += ["T-arith: " + e for e in errs]
+        ctx.lean.problems += ["T-arith: " + e for e in errs] + ["T-sql: " + e for e in sql_errs]
     drv = core.Driver()
     if ctx.replay:
         import json
